@@ -240,7 +240,7 @@ func (*Scanner).NextToken [C13, C03]
   safe
   requires J(s) && P(s)
   modifies scanner.Scanner.cur, scanner.Scanner.column, scanner.Scanner.line, scanner.Scanner.indent, scanner.Scanner.shouldIndent,
-           scanner.Scanner.shouldCapitalize, scanner.Scanner.start, scanner.Scanner.startLine, scanner.Scanner.startColumn, parser.parser.errored
+           scanner.Scanner.shouldCapitalize, scanner.Scanner.start, scanner.Scanner.startLine, scanner.Scanner.startColumn, parser.parser.errored, g:$deliveredErr
   ensures J(s)
   ensures P(s)
   ensures old(s.cur) <= s.start && allBlank(s, old(s.cur), s.start)
